@@ -79,8 +79,12 @@ func recacheAggregatorContext(ctx sdk.Context, agc *aggregator.AggregatorContext
 		return false
 	}
 	// #nosec G115
+	// a validator-set change force-sealed every open round at the end of block h.Block: replay that block as well,
+	// without its messages but with the forced seal, so that the rebuilt round table has those rounds closed
+	forcedBlock := int64(-1)
 	if int64(h.Block) >= from {
-		from = int64(h.Block) + 1
+		from = int64(h.Block)
+		forcedBlock = from
 	}
 
 	logger.Info("recacheAggregatorContext", "from", from, "to", to, "height", ctx.BlockHeight())
@@ -128,6 +132,11 @@ func recacheAggregatorContext(ctx sdk.Context, agc *aggregator.AggregatorContext
 			}
 
 			agc.PrepareRoundEndBlock(uint64(from - 1))
+
+			if from == forcedBlock {
+				agc.SealRound(ctx.WithBlockHeight(from), true)
+				continue
+			}
 
 			if msgs := recentMsgs[from]; msgs != nil {
 				for _, msg := range msgs {
